@@ -433,7 +433,9 @@ def _shards(items, size):
 
 def conditions(tier, seed):
     quick = tier == 'quick'
-    out = []
+    out = [{'name': 'name_spelling', 'func': 'name_spelling', 'timeout': 200,
+            'bounds': 'function toUpper registered (exclusively or not) in a Context / MultiContext / LinkedContext over a parent that '
+                      'also has it; looked up as toUpper, toUpper_, toUpper__ and, with use_convention, as to_upper, to_upper_'}]
     topos = M.QUICK if quick else list(M.TOPOLOGIES)
     for topo in topos:
         steps = M.TOPOLOGIES[topo]
@@ -494,6 +496,48 @@ def conditions(tier, seed):
 
 
 # ------------------------------------------------------------------ validate / replay
+SPELLINGS = [('toUpper', False), ('toUpper_', False), ('toUpper__', False), ('to_upper', True), ('to_upper_', True),
+             ('toUpper', True)]
+SPBOX = [(i,) for i in range(len(SPELLINGS))]
+
+
+def name_spelling(e: bool, sp: int, kind: int) -> bool:
+    """
+    pre: 0 <= sp < len(SPELLINGS) and 0 <= kind < 3
+    post: _
+    """
+    # function names are looked up modulo trailing underscores and (with use_convention) the naming convention; the
+    # exclusive mark of a layer must apply to every spelling that denotes the registered name
+    from yaql.language import contexts, conventions, specs
+    spelling, use_conv = SPELLINGS[SPBOX[sp][0]]
+    kind = SPBOX[kind][0]
+    excl = [(False,), (True,)][int(e)][0]
+    with H.NoTracing():
+        conv = conventions.CamelCaseConvention()
+        parent = contexts.Context(convention=conv)
+
+        def p_up(x):
+            return 'parent'
+
+        def c_up(x):
+            return 'child'
+        parent.register_function(p_up, name='toUpper')
+        if kind == 0:
+            child = contexts.Context(parent)
+        elif kind == 1:
+            child = contexts.MultiContext([contexts.Context(parent), contexts.Context(parent)])
+        else:
+            child = contexts.LinkedContext(parent, contexts.Context(convention=conv))
+        child.register_function(c_up, name='toUpper', exclusive=excl)
+        layers = [sorted(fd.payload(0) for fd in layer) for layer in child.collect_functions(spelling, use_convention=use_conv)]
+        own, is_excl = child.get_functions(spelling, use_convention=use_conv)
+        exp = [['child']] if excl else [['child'], ['parent']]
+        if kind == 1 and not excl:
+            exp = [['child'], ['parent']]
+        ok = layers == exp and sorted(fd.payload(0) for fd in own) == ['child'] and bool(is_excl) == excl
+    return H.done(ok)
+
+
 def validate():
     """the flattened-layers reference against the real classes on random forests and histories (concrete), F12 class
     avoided"""
@@ -541,6 +585,12 @@ def validate():
 
 
 def replay(cond, args):
+    if cond['func'] == 'name_spelling':
+        ok = name_spelling(**args)
+        return {'reproduced': not ok, 'key': 'C17/name-spelling',
+                'what': 'collect_functions/get_functions(%r, use_convention=%r) on a %s with exclusive=%r differs from the layers of the '
+                        'registered name toUpper' % (SPELLINGS[args['sp']][0], SPELLINGS[args['sp']][1],
+                                                    ['Context', 'MultiContext', 'LinkedContext'][args['kind']], args['e'])}
     import props.c17 as me
     fn = getattr(me, cond['func'])
     p = cond.get('param') or {}
